@@ -402,6 +402,9 @@ func triStr(t int) string {
 	return "U"
 }
 
+// CoordsStr: canonical text of a coordinates map.
+func CoordsStr(w *World, m hg.CoordinatesMap) string { return coordsStr(w, m) }
+
 func coordsStr(w *World, m hg.CoordinatesMap) string {
 	type ent struct{ o, i, e int }
 	l := []ent{}
